@@ -347,13 +347,13 @@ reg("SRAM(8bit,bursting)+burst_wait_states", "quick", kind="sram", mw=8, adrs=(0
 # cache: addresses 0, 2, 4 collide in a 2-line cache (16/16: line = 1 word), 1 is the other line.  With one data mark per lane the
 # product closes (every byte is 0 or its mark), so these runs have no operation-depth bound; the two-mark runs keep a bound (and the
 # read-back epilogue) and are thorough-only
-reg("Cache(size=2,16/16)+SRAM", "quick", kind="cache", mw=16, sw=16, adrs=(0, 2, 4, 1), sels=(0b01, 0b11, 0b10), cachesize=2, backing="sram", nbytes=16, marks=(1,))
+reg("Cache(size=2,16/16)+SRAM", "quick", kind="cache", mw=16, sw=16, adrs=(0, 2, 4, 1), sels=(0b01, 0b11, 0b10, 0b00), cachesize=2, backing="sram", nbytes=16, marks=(1,))
 reg("Cache(size=2,16/16,reverse=False)+SRAM", "quick", kind="cache", mw=16, sw=16, adrs=(0, 2, 4), sels=(0b01, 0b11), cachesize=2, backing="sram", nbytes=16, reverse=False, marks=(1,))
-reg("Cache(size=4,16/32)+SRAM", "quick", kind="cache", mw=16, sw=32, adrs=(0, 1, 8, 9), sels=(0b01, 0b11, 0b10), cachesize=4, backing="sram", nbytes=32, marks=(1,))
+reg("Cache(size=4,16/32)+SRAM", "quick", kind="cache", mw=16, sw=32, adrs=(0, 1, 8, 9), sels=(0b01, 0b11, 0b00), cachesize=4, backing="sram", nbytes=32, marks=(1,))
 reg("Cache(size=4,16/32,reverse=False)+SRAM", "quick", kind="cache", mw=16, sw=32, adrs=(0, 1, 8), sels=(0b01, 0b11), cachesize=4, backing="sram", nbytes=32, reverse=False, marks=(1,))
-reg("Cache(size=2,32/16)+SRAM", "quick", kind="cache", mw=32, sw=16, adrs=(0, 2, 4), sels=(0b0001, 0b1111, 0b0110), cachesize=2, backing="sram", nbytes=32, marks=(1,))
+reg("Cache(size=2,32/16)+SRAM", "quick", kind="cache", mw=32, sw=16, adrs=(0, 2, 4), sels=(0b0001, 0b1111, 0b0110, 0b0000), cachesize=2, backing="sram", nbytes=32, marks=(1,))
 reg("Cache(size=2,32/8)+SRAM", "quick", kind="cache", mw=32, sw=8, adrs=(0, 2), sels=(0b0001, 0b1111, 0b0110), cachesize=2, backing="sram", nbytes=16, marks=(1,))
-reg("Cache(size=2,16/16)+envmem", "quick", kind="cache", mw=16, sw=16, adrs=(0, 2, 4), sels=(0b01, 0b11), cachesize=2, nbytes=16, zero_env=True, marks=(1,))
+reg("Cache(size=2,16/16)+envmem", "quick", kind="cache", mw=16, sw=16, adrs=(0, 2, 4), sels=(0b01, 0b11, 0b00), cachesize=2, nbytes=16, zero_env=True, marks=(1,))
 reg("Cache(size=2,16/16)+envmem,lat2", "thorough", kind="cache", mw=16, sw=16, adrs=(0, 2, 4), sels=(0b01, 0b11), cachesize=2, nbytes=16, zero_env=True, maxlat=2, marks=(1,))
 reg("Cache(size=2,16/16)+SRAM,2marks,depth5", "thorough", kind="cache", mw=16, sw=16, adrs=(0, 2, 4, 1), sels=(0b01, 0b11, 0b10), cachesize=2, backing="sram", nbytes=16, depth=5, cap=3_000_000)
 reg("Cache(size=2,16/16)+SRAM,2marks", "thorough", kind="cache", mw=16, sw=16, adrs=(0, 2, 4), sels=(0b01, 0b11), cachesize=2, backing="sram", nbytes=16, cap=3_000_000)
